@@ -150,6 +150,29 @@ def run_all(tier, seed):
                     lines.append(f"xobj {gen} {int(o2._offset)}")
                     expect.append(f"ptr {gen} {int(o2._offset)}")
                     ctxs.append(c1)
+            # ---------------- a deep copy of an object whose buffer has been used for a call: it lives in ITS OWN copy of the buffer
+            if objs and not stale:
+                import copy as _copy
+                o2 = r.choice(objs)
+                c1 = dict(c0, offset=int(o2._offset), what="deepcopy")
+                try:
+                    oc = _copy.deepcopy(o2)
+                    a = int(K.addr_obj(obj=oc))
+                    evals += 1
+                    tags["xobj.ptr.deepcopy"] += 1
+                    base_c = base_addr(ffi, oc._buffer.buffer)
+                    if oc._buffer is o2._buffer or a - base_c != int(oc._offset):
+                        fail("xobj-pointer", f"{cname}: a deep copy of an object (offset {int(o2._offset)}, its buffer was used for kernel calls before) was "
+                             f"delivered as address copy-base+{a - base_c}, original-base+{a - base_addr(ffi, o2._buffer.buffer)}", c1)
+                    else:
+                        newa = r.randint(-2**62, 2**62)
+                        olda = int(o2.a)
+                        K.noret(obj=oc, v=newa)
+                        if int(oc.a) != newa or int(o2.a) != olda:
+                            fail("xobj-write-lost", f"{cname}: a kernel write to a deep copy: the copy reads {int(oc.a)} (written {newa}), the original "
+                                 f"{int(o2.a)} (was {olda})", c1)
+                except Exception as ex:
+                    fail("xobj-call-raises", f"{cname}: deep copy: {type(ex).__name__} {str(ex)[:160]}", c1)
             # ---------------- numeric arrays as pointers to their first element
             for name, cty, code in SCAL:
                 dt = np.dtype(code)
